@@ -878,7 +878,7 @@ func c15Run(c *core.Ctx) {
 					}
 					rules(rs...)
 				}
-				if d := n*len(oneD) - T; d > -120 && d < 120 && T <= 8192 {
+				if d := n*len(oneD) - T; d > -120 && d < 120 && T <= 32768 {
 					var ds []qDesc
 					for k := 0; k < n; k++ {
 						ds = append(ds, qDesc{QFI: uint8(k % 64), Op: 1, Params: ps})
@@ -886,6 +886,36 @@ func c15Run(c *core.Ctx) {
 					descs(ds...)
 				}
 			}
+		}
+	}
+	// description lists that fill the element's 65 535 octets (two-octet length) exactly and almost: thousands of
+	// descriptions with one short parameter each (5QI, EBI, averaging window: 3..4 octets where a bit rate takes 5), the
+	// last one with 0..63 short parameters, so that the total is 65 535 - d for d = 0..8 and a few larger gaps
+	if mine() {
+		short := []qParam{{ID: 1, Value: "09"}, {ID: 7, Value: "05"}, {ID: 6, Value: "0102"}}
+		for pi, sp := range short {
+			unit := 3 + 2 + len(sp.Value)/2
+			for _, gap := range []int{0, 1, 2, 3, 4, 5, 8, 64, 130} {
+				for _, lastN := range []int{0, 1, 63} {
+					lastLen := 3 + lastN*(2+len(short[(pi+1)%3].Value)/2)
+					n := (65535 - gap - lastLen) / unit
+					var ds []qDesc
+					for k := 0; k < n; k++ {
+						ds = append(ds, qDesc{QFI: uint8(k % 64), Op: 1, Params: []qParam{sp}})
+					}
+					var lp []qParam
+					for k := 0; k < lastN; k++ {
+						lp = append(lp, short[(pi+1)%3])
+					}
+					op := uint8(1)
+					if lastN == 0 {
+						op = 2
+					}
+					ds = append(ds, qDesc{QFI: 63, Op: op, Params: lp})
+					descs(ds...)
+				}
+			}
+			c.Tick()
 		}
 	}
 	// rich rules: k filters with m components each (long component lists, large rules), alone and between small rules
